@@ -262,7 +262,8 @@ class Stream:
         self.name = name
         self.what = what
         self.cases = 0
-        self.disagreements = 0
+        self.disagreements = 0      # model/impl disagreements and failing inputs that are NOT recorded known findings
+        self.known = 0              # failing inputs matching a `known` entry of known_findings.json
 
 
 class Ctx:
@@ -317,7 +318,7 @@ class Ctx:
 
     def fail(self, stream, signature, case, observed, expected, oracle, detail=''):
         """a concrete input on which the property fails on the real code (confirmed by the oracle)"""
-        self.stream(stream).disagreements += 1
+        self.stream(stream)
         self.failing.append(dict(stream=stream, signature=signature, case=case, observed=observed,
                                  expected=expected, oracle=oracle, detail=detail))
 
@@ -336,8 +337,10 @@ class Ctx:
                     break
             if hit is not None:
                 known_hit.setdefault(hit.get('id', json.dumps(hit['selector'], sort_keys=True)), (hit, f))
+                self.stream(f['stream']).known += 1
             else:
                 new_fail.append(f)
+                self.stream(f['stream']).disagreements += 1
         for kid, (k, f) in known_hit.items():
             lines.append('KNOWN-FINDING: property=%s %s' % (pid, k.get('what', kid)))
 
@@ -387,7 +390,8 @@ class Ctx:
             samples=self.samples or [{'note': 'no sample recorded'}],
             theorems=theorems,
             axioms_ok=proof_ok,
-            streams={s.name: dict(what=s.what, cases=s.cases, disagreements=s.disagreements) for s in self.streams.values()},
+            streams={s.name: dict(what=s.what, cases=s.cases, disagreements=s.disagreements, known_finding_cases=s.known) for s in self.streams.values()},
+            obligations_note='obligations = property theorems (kernel-checked, axioms audited) + correspondence / oracle streams; a stream is discharged when it has no disagreement and no failing input other than recorded known findings (listed in known_findings_hit; nothing is claimed inside their selectors)',
             input_distribution=self.hist,
             partial=self.partial,
             driver_lines=self.driver.lines,
